@@ -2,7 +2,8 @@
 # tools/try_neutral.sh <ID> <nK> [ids...] — apply a property-preserving change to /repo, run the quick
 # tier of the given checks (default: all 20), ALWAYS revert.  Output: /tmp/neutral/<ID>/<nK>/sweep.log
 ID="$1"; N="$2"; shift 2
+ND="${NEUTRAL_DIR:-/tmp/neutral}"
 IDS="${*:-C01 C02 C03 C04 C05 C06 C07 C08 C09 C10 C11 C12 C13 C14 C15 C16 C17 C18 C19 C20}"
 cd /verif
-tools/try_seed.sh /tmp/neutral/$ID/$N/patch.diff quick $IDS > /tmp/neutral/$ID/$N/sweep.log 2>&1
-echo "== $ID/$N: $(grep -c '^== .* rc=0' /tmp/neutral/$ID/$N/sweep.log) silent, alarms: $(grep -E '^== .* rc=[1-9]' /tmp/neutral/$ID/$N/sweep.log | awk '{print $2":"$4}' | tr '\n' ' ')"
+tools/try_seed.sh $ND/$ID/$N/patch.diff quick $IDS > $ND/$ID/$N/sweep.log 2>&1
+echo "== $ID/$N: $(grep -c '^== .* rc=0' $ND/$ID/$N/sweep.log) silent, alarms: $(grep -E '^== .* rc=[1-9]' $ND/$ID/$N/sweep.log | awk '{print $2":"$4}' | tr '\n' ' ')"
